@@ -1,5 +1,5 @@
 (* rtpklv: packet well-formedness (C06), round trip (C03; partial + refutation, finding F2),
-   resynchronisation (C07), arbitrary histories (C08; findings F3, F4). *)
+   resynchronisation (C07), arbitrary histories (C08; finding F4; F3 repaired by 5cc6a94). *)
 From GVL Require Import NList Wire Chunks Rtp.
 From GV_klv Require Import Model.
 From Coq Require Import ZifyBool ZifyNat ZifyN.
@@ -663,7 +663,7 @@ Proof.
   intros f Hf. specialize (G2 f Hf). lia.
 Qed.
 
-(* --- F3: a returned unit lives in the decoder's own buffer, which later calls overwrite --- *)
+(* --- aliasing (F3, repaired): no step writes to a region that has been returned --- *)
 (* some step writes to a region that an earlier step returned *)
 Fixpoint waw (returned : list N) (rs : list (dres (bytes * N) * list N)) : bool :=
   match rs with
@@ -676,16 +676,6 @@ Definition write_after_return (rs : list (dres (bytes * N) * list N)) : bool := 
 
 Definition unitA : bytes := [6;14;43;52;1;1;1;1;1;1;1;1;1;1;1;1;8;170;170;170;170;170;170;170;170].
 Definition unitB : bytes := [6;14;43;52;1;1;1;1;1;1;1;1;1;1;1;1;8;187;187;187;187;187;187;187;187].
-
-Theorem no_write_after_return_refuted : exists hist,
-  write_after_return (snd (dec_run dinit hist)) = true.
-Proof. exists [mkPkt 10 0 true unitA; mkPkt 11 0 true unitB]. vm_compute. reflexivity. Qed.
-
-(* what does hold: a step writes only to the region of the decoder's current buffer or to a brand-new
-   region, and a brand-new region was never returned before.  So the only returned units that can be
-   overwritten are those that share the backing array d.buffer still uses. *)
-Definition returned_regions (rs : list (dres (bytes * N) * list N)) : list N :=
-  flat_map (fun rw => match fst rw with DFrame (_, y) => [y] | _ => [] end) rs.
 
 Lemma append_reg_facts reg cap fresh n k : reg < fresh ->
   let '(reg', cap', fresh', w) := append_reg reg cap fresh n k in
@@ -702,59 +692,94 @@ Proof.
       * splits; try lia. intros x [<-|[]]; now right.
 Qed.
 
-Lemma finish_regions d m w : let '(d', r, w') := finish d m w in
-  dreg d' = dreg d /\ dfresh d' = dfresh d /\ w' = w /\ forall f y, r = DFrame (f, y) -> y = dreg d.
+(* returned regions are old (below the fresh counter), non-nil, and not the current buffer's region;
+   while assembling, the buffer has a real region *)
+Definition FInv (d : dstate) (R : list N) : Prop :=
+  dreg d < dfresh d /\ (dasm d = true -> dreg d <> 0) /\
+  Forall (fun y => 0 < y /\ y < dfresh d /\ y <> dreg d) R.
+
+Lemma existsb_false w R : (forall x, In x w -> ~ In x R) -> existsb (fun x => existsb (N.eqb x) R) w = false.
 Proof.
-  unfold finish. destruct m; [cbn; splits; auto; intros f y H; now injection H as _ <-|].
-  destruct ((0 <? dexp d) && (dexp d <=? nlen (dbuf d))); [|splits; auto; discriminate].
-  destruct (nsub _ _ _); [cbn; splits; auto; intros f y H; now injection H as _ <-|splits; auto; discriminate].
+  intros H. apply Bool.not_true_is_false. intros E. apply existsb_exists in E. destruct E as (x & Hx & E).
+  apply existsb_exists in E. destruct E as (y & Hy & E). apply N.eqb_eq in E. subst y. exact (H x Hx Hy).
 Qed.
 
-Lemma dec_regions d p : dreg d < dfresh d ->
+Lemma FInv_reset d R y : FInv d R -> y = dreg d -> dreg d <> 0 -> FInv (dreset d) (y :: R).
+Proof.
+  intros (H1 & H2 & H3) -> Hnz. unfold FInv; cbn [dreset dreg dfresh dasm]. splits; [lia|discriminate|].
+  constructor; [lia|]. eapply Forall_impl; [|exact H3]. cbn. intros a. lia.
+Qed.
+Lemma FInv_reset' d R : FInv d R -> FInv (dreset d) R.
+Proof.
+  intros (H1 & H2 & H3). unfold FInv; cbn [dreset dreg dfresh dasm]. splits; [lia|discriminate|].
+  eapply Forall_impl; [|exact H3]. cbn. intros a. lia.
+Qed.
+
+Lemma finish_FInv d m w R : FInv d R -> dasm d = true ->
+  let '(d', r, w') := finish d m w in
+  w' = w /\ FInv d' (match r with DFrame (_, y) => y :: R | _ => R end).
+Proof.
+  intros HI Ha. pose proof HI as (_ & Hnz & _). specialize (Hnz Ha). unfold finish. destruct m.
+  - split; [reflexivity|]. now apply FInv_reset.
+  - destruct ((0 <? dexp d) && (dexp d <=? nlen (dbuf d))); [|split; [reflexivity|exact HI]].
+    destruct (nsub _ _ _); [split; [reflexivity|now apply FInv_reset]|split; [reflexivity|exact HI]].
+Qed.
+
+Lemma append_FInv d R n k :
+  FInv d R -> (dasm d = true \/ 0 < k) ->
+  let '(reg, cap, fresh, w) := append_reg (dreg d) (dcap d) (dfresh d) n k in
+  (forall x, In x w -> ~ In x R) /\
+  forall b e t l f, FInv (mkD b e t true l f reg cap fresh) R.
+Proof.
+  intros (H1 & H2 & H3) Hk.
+  pose proof (append_reg_facts (dreg d) (dcap d) (dfresh d) n k H1) as Hf.
+  destruct (append_reg _ _ _ _ _) as [[[reg cap] fresh] w]. destruct Hf as (A1 & A2 & A3 & A4 & A5).
+  rewrite Forall_forall in H3. split.
+  - intros x Hx Hin. specialize (H3 x Hin). destruct (A3 x Hx) as [[-> _]| ->]; lia.
+  - intros b e t l f. unfold FInv; cbn [dreg dfresh dasm]. splits; [assumption| |].
+    + intros _. destruct (N.eqb_spec k 0) as [Hz|Hz].
+      * rewrite (A5 Hz). destruct Hk as [Hk|Hk]; [now apply H2|lia].
+      * apply A4. lia.
+    + rewrite Forall_forall. intros y Hy. specialize (H3 y Hy).
+      destruct (N.eqb_spec k 0) as [Hz|Hz]; [rewrite (A5 Hz); lia|].
+      destruct A4 as [_ [->| ->]]; lia.
+Qed.
+
+Lemma is_start_len pl : is_start pl = true -> 0 < nlen pl.
+Proof. destruct pl; [discriminate|]. cbn [nlen]. lia. Qed.
+
+Lemma dec_FInv d p R : FInv d R ->
   let '(d', r, w) := dec d p in
-  dreg d' < dfresh d' /\ dfresh d <= dfresh d' /\
-  (forall x, In x w -> (x = dreg d /\ dreg d <> 0) \/ x = dfresh d) /\
-  (forall f y, r = DFrame (f, y) -> y < dfresh d').
+  (forall x, In x w -> ~ In x R) /\ FInv d' (match r with DFrame (_, y) => y :: R | _ => R end).
 Proof.
-  intros H. unfold dec. destruct (dfirst d && negb (pseq p =? seq_next (dlast d))).
-  { cbn; splits; try lia; try (intros ? []); try discriminate. }
-  cbn [dasm dbuf dexp dts dreg dcap dfresh]. destruct (dasm d); cbn [negb].
-  - destruct (pts p =? dts d); cbn [negb]; [|cbn; splits; try lia; try (intros ? []); try discriminate].
-    pose proof (append_reg_facts (dreg d) (dcap d) (dfresh d) (nlen (dbuf d)) (nlen (ppayload p)) H) as Ha.
-    destruct (append_reg _ _ _ _ _) as [[[reg cap] fresh] w]. destruct Ha as (A1 & A2 & A3 & _).
-    pose proof (finish_regions (mkD (dbuf d ++ ppayload p) (dexp d) (dts d) true (pseq p) true reg cap fresh) (pmarker p) w) as Hf.
-    destruct (finish _ _ _) as [[d' r] w']. cbn [dreg dfresh] in Hf. destruct Hf as (-> & -> & -> & F4).
-    splits; try assumption. intros f y Hy. rewrite (F4 f y Hy). exact A1.
-  - destruct (is_start (ppayload p)); cbn [negb]; [|cbn; splits; try lia; try (intros ? []); try discriminate].
-    pose proof (append_reg_facts (dreg d) (dcap d) (dfresh d) 0 (nlen (ppayload p)) H) as Ha.
-    destruct (append_reg _ _ _ _ _) as [[[reg cap] fresh] w]. destruct Ha as (A1 & A2 & A3 & _).
-    destruct (expected_of_ok (dexp d) (ppayload p)) as [e ->].
-    pose proof (finish_regions (mkD (ppayload p) e (pts p) true (pseq p) true reg cap fresh) (pmarker p) w) as Hf.
-    destruct (finish _ _ _) as [[d' r] w']. cbn [dreg dfresh] in Hf. destruct Hf as (-> & -> & -> & F4).
-    splits; try assumption. intros f y Hy. rewrite (F4 f y Hy). exact A1.
+  intros HI. unfold dec. destruct (dfirst d && negb (pseq p =? seq_next (dlast d))).
+  { split; [intros x []|now apply FInv_reset']. }
+  cbn [dasm dbuf dexp dts dreg dcap dfresh]. destruct (dasm d) eqn:Ea; cbn [negb].
+  - destruct (pts p =? dts d); cbn [negb].
+    + pose proof (append_FInv d R (nlen (dbuf d)) (nlen (ppayload p)) HI (or_introl Ea)) as Hap.
+      destruct (append_reg _ _ _ _ _) as [[[reg cap] fresh] w]. destruct Hap as [Hw Hi].
+      pose proof (finish_FInv (mkD (dbuf d ++ ppayload p) (dexp d) (dts d) true (pseq p) true reg cap fresh) (pmarker p) w R (Hi _ _ _ _ _) eq_refl) as Hf.
+      destruct (finish _ _ _) as [[d' r] w']. destruct Hf as [-> Hf]. split; assumption.
+    + split; [intros x []|]. apply FInv_reset'. destruct HI as (H1 & H2 & H3). unfold FInv; cbn [dreg dfresh dasm]. tauto.
+  - destruct (is_start (ppayload p)) eqn:Es; cbn [negb].
+    + pose proof (append_FInv d R 0 (nlen (ppayload p)) HI (or_intror (is_start_len _ Es))) as Hap.
+      destruct (append_reg _ _ _ _ _) as [[[reg cap] fresh] w]. destruct Hap as [Hw Hi].
+      destruct (expected_of (dexp d) (ppayload p)) as [e|].
+      * pose proof (finish_FInv (mkD (ppayload p) e (pts p) true (pseq p) true reg cap fresh) (pmarker p) w R (Hi _ _ _ _ _) eq_refl) as Hf.
+        destruct (finish _ _ _) as [[d' r] w']. destruct Hf as [-> Hf]. split; assumption.
+      * split; [intros x []|]. destruct HI as (H1 & H2 & H3). unfold FInv; cbn [dreg dfresh dasm]. splits; [assumption|discriminate|assumption].
+    + split; [intros x []|]. destruct HI as (H1 & H2 & H3). unfold FInv; cbn [dreg dfresh dasm]. splits; [assumption|discriminate|assumption].
 Qed.
 
-Lemma run_regions hist : forall d, dreg d < dfresh d ->
-  let '(d', rs) := dec_run d hist in
-  dreg d' < dfresh d' /\ dfresh d <= dfresh d' /\ Forall (fun y => y < dfresh d') (returned_regions rs).
+Lemma waw_false hist : forall d R, FInv d R -> waw R (snd (dec_run d hist)) = false.
 Proof.
-  induction hist as [|p t IH]; intros d H; cbn [dec_run].
-  - splits; [assumption|lia|constructor].
-  - pose proof (dec_regions d p H) as Hd. destruct (dec d p) as [[d1 r] w]. destruct Hd as (D1 & D2 & _ & D4).
-    specialize (IH d1 D1). destruct (dec_run d1 t) as [d2 rs]. destruct IH as (I1 & I2 & I3).
-    splits; [assumption|lia|]. cbn [returned_regions flat_map fst]. apply Forall_app. split; [|exact I3].
-    destruct r as [[f y]| | |]; constructor; [|constructor]. specialize (D4 f y eq_refl). lia.
+  induction hist as [|p t IH]; intros d R HI; cbn [dec_run]; [reflexivity|].
+  pose proof (dec_FInv d p R HI) as H. destruct (dec d p) as [[d1 r] w]. destruct H as [Hw HI1].
+  specialize (IH d1 _ HI1). destruct (dec_run d1 t) as [d2 rs]. cbn [snd waw] in *.
+  rewrite (existsb_false w R Hw). cbn [orb]. destruct r as [[f y]| | |]; exact IH.
 Qed.
 
-Theorem writes_partial hist p :
-  let '(d, rs) := dec_run dinit hist in
-  let '(_, _, w) := dec d p in
-  forall x, In x w ->
-    (x = dreg d /\ dreg d <> 0) \/ (x = dfresh d /\ ~ In x (returned_regions rs)).
-Proof.
-  pose proof (run_regions hist dinit) as H. destruct (dec_run dinit hist) as [d rs].
-  destruct H as (H1 & _ & H3); [cbn; lia|].
-  pose proof (dec_regions d p H1) as Hd. destruct (dec d p) as [[d' r] w]. destruct Hd as (_ & _ & D3 & _).
-  intros x Hx. destruct (D3 x Hx) as [Hl|Hr]; [now left|right]. split; [assumption|].
-  intros Hin. rewrite Forall_forall in H3. specialize (H3 x Hin). lia.
-Qed.
+(* C08, aliasing clause, full strength: on every packet history no Decode call writes to a region that an
+   earlier call returned *)
+Theorem no_write_after_return hist : write_after_return (snd (dec_run dinit hist)) = false.
+Proof. apply waw_false. unfold FInv; cbn. splits; [lia|discriminate|constructor]. Qed.
